@@ -28,4 +28,13 @@ def opCompose (j : Json) : Json :=
     Json.mkObj [("table", Json.arr (r.map fun kv => Json.arr #[Json.str kv.1, Json.str kv.2]).toArray)]
   | _, _ => errJson "parse"
 
+/-- op `solverparams`: `Solver.update_params` (defaults < call values < add_param-derived) -/
+def opSolverParams (j : Json) : Json :=
+  match (j.getObjVal? "defaults").toOption >>= parsePairsStr, (j.getObjVal? "args").toOption >>= parsePairsStr,
+        (j.getObjVal? "derived").toOption >>= parsePairsStr with
+  | some d, some a, some x =>
+    let r := solverParams (⟨d⟩ : Dict String) ⟨a⟩ ⟨x⟩
+    Json.mkObj [("dict", Json.arr (r.kv.map fun kv => Json.arr #[Json.str kv.1, Json.str kv.2]).toArray)]
+  | _, _, _ => errJson "parse"
+
 end Driver
